@@ -270,7 +270,7 @@ def c04(ck):
         return
     svc = DEFAULT_SVC
     quick = ck.quick
-    ow_flags = {"oneway": ALL_FLAGS["oneway"], "more+oneway": ALL_FLAGS["more+oneway"]}
+    ow_flags = {"oneway": ALL_FLAGS["oneway"], "more+oneway": ALL_FLAGS["more+oneway"], "oneway+upgflag": ALL_FLAGS["oneway+upgflag"]}
     lines, meta = [], {}
     # every kind alone with oneway
     for k in kinds():
@@ -705,6 +705,46 @@ def c02_reference_caller(ck, quick, rng):
                 ck.failures.append({"what": "examples/ping in multiplex mode (the reference caller of handle()'s tail protocol): the replies depend on how the "
                                             "request stream is segmented", "segmentation": name, "requests": nreq, "replies": len(got), "first_difference_at": first,
                                     "got_there": got[first] if first < len(got) else None, "expected_there": want[first] if first < len(want) else None})
+        # an upgraded session: what the client sends after the upgrade request reaches the upgraded handler in order, whether it
+        # arrives in the same write as the request or later (each schedule waits for the echo of what it has sent so far)
+        upq = json.dumps({"method": "org.example.ping.Upgrade", "upgrade": True}).encode() + b"\0"
+        pq = json.dumps({"method": "org.example.ping.Ping", "parameters": {"ping": "a"}}).encode() + b"\0"
+        lines_ = [b"first\n", b"second line\n", b"End\n"]
+        want_up = b'{"parameters":{"pong":"a"}}\0{}\0' + b"".join(b"server reply: " + l for l in lines_)
+
+        def run_up(steps):
+            s = socket.socket(socket.AF_UNIX)
+            s.connect(path)
+            s.settimeout(0.3)
+            got = b""
+            for piece, wait_for in steps:
+                s.sendall(piece)
+                t1 = time.time()
+                while len(got) < wait_for and time.time() - t1 < 3:
+                    try:
+                        b_ = s.recv(65536)
+                        if not b_:
+                            break
+                        got += b_
+                    except socket.timeout:
+                        pass
+                    except OSError:
+                        break
+            s.close()
+            return got
+        l0 = len(b'{"parameters":{"pong":"a"}}\0{}\0')
+        r1 = len(b"server reply: ") + len(lines_[0])
+        schedules = [("request, then each line in its own write", [(pq + upq, l0), (lines_[0], l0 + r1), (lines_[1], l0 + r1 + 14 + len(lines_[1])), (lines_[2], len(want_up))]),
+                     ("first line in the same write as the upgrade request", [(pq + upq + lines_[0], l0 + r1), (lines_[1] + lines_[2], len(want_up))]),
+                     ("two lines in the same write as the upgrade request", [(pq + upq + lines_[0] + lines_[1], l0 + r1 + 14 + len(lines_[1])), (lines_[2], len(want_up))])]
+        for name, steps in schedules:
+            got = run_up(steps)
+            ck.case("pingmux-upgrade|" + name)
+            ck.count("reference_caller_ping_multiplex_upgraded")
+            if got != want_up:
+                ck.failures.append({"what": "examples/ping in multiplex mode: the bytes of an upgraded session did not reach the upgraded handler in order "
+                                            "(the echo depends on how the client's stream was segmented)", "schedule": name,
+                                    "got": got.decode("utf-8", "replace")[:300], "expected": want_up.decode()[:300]})
     finally:
         srv.kill()
         srv.wait()
